@@ -146,7 +146,7 @@ pub fn replay(args: &[String]) {
 }
 
 // --------------------------------------------------- C01 dedicated recorder --
-const PRESETS: &[&str] = &["standard", "standard-no-context", "standard-context", "standard-base", "standard-base-prerelease",
+pub const PRESETS: &[&str] = &["standard", "standard-no-context", "standard-context", "standard-base", "standard-base-prerelease",
     "standard-base-prerelease-post", "standard-base-prerelease-post-dev", "standard-base-context", "standard-base-prerelease-context",
     "standard-base-prerelease-post-context", "standard-base-prerelease-post-dev-context",
     "calver", "calver-no-context", "calver-context", "calver-base", "calver-base-prerelease", "calver-base-prerelease-post",
